@@ -10,8 +10,8 @@ modes
         (mode, ty, cls) are one orbit.  Every member e is decoded to a real term (a "ring" orbit at int AND at real) and every
         normaliser of its kind is run on it: one "norm" event per (member, normaliser), one "orbit" event per (orbit, normaliser)
         carrying all (x, rhs).  arith_mod / int_mod: replay only the arithmetic (resp. integer) orbits whose class digest is
-        0 modulo it (quick tier sampling; TLC explores all of them in any case).
-  part "comb":   (terms whose digest is 0 modulo comb_mod)
+        0 modulo it (sampling, seeded; TLC explores all of them in any case).
+  part "comb":   (terms whose digest is 0 modulo comb_mod, and all terms the specification marks `must`)
         every term of spec/C10_Terms.tla (twice: binders named "x", clashing with the free variable x, and binders with fresh
         names) x every traversal / rewriting combinator of CONVS: one "comb" event each.
   part "rand":
@@ -148,7 +148,7 @@ def run_conv(cv, t, with_idem):
 
 
 NORMS = {
-    ("arith", "nat"): [("nat_norm_full", nat.norm_full)],
+    ("arith", "nat"): [("nat_norm_full", nat.norm_full), ("nat_conv", nat.nat_conv)],   # nat_conv: closed members only
     ("arith", "int"): [("int_norm", integer.int_norm_conv)],
     ("arith", "real"): [("real_norm", real.real_norm_conv), ("real_auto", auto.auto_conv)],
     ("conj", "bool"): [("prop_norm_full", proplogic.norm_full), ("sort_conj", proplogic.sort_conj), ("conj_norm", logic.conj_norm)],
@@ -158,12 +158,22 @@ NORMS = {
 ORBIT_CHUNK = 150
 
 
+def closed(a):
+    """the vector has no variable and no opaque atom (domain of nat.nat_conv, which has its own fast evaluation)"""
+    return a is not None and a[0] not in ("v", "o") and all(closed(b) for b in a[1:] if isinstance(b, list))
+
+
+MEMBER_FILTER = {"nat_conv": closed}
+
+
 def norm_orbit(mode, ty, okey, members, emit):
     """members: list of (abstract vector or None, real term)."""
     for name, mk in NORMS[(mode, ty)]:
         cv = mk()
         ms = []
         for ax, t in members:
+            if name in MEMBER_FILTER and not MEMBER_FILTER[name](ax):
+                continue
             r, rhs = run_conv(cv, t, True)
             xj = enc(t)
             ev = {"kind": "norm", "cv": name, "ty": ty, "mode": mode, "x": xj, "ax": ax if ax is not None else ["none"], "conds": [],
@@ -233,7 +243,11 @@ def hmod(s, m):
     return int(hashlib.sha1(s.encode()).hexdigest()[:8], 16) % m
 
 
-def norm_items(dump_path, arith_mod, int_mod):
+def has_op(a, ops):
+    return a[0] in ops or any(has_op(b, ops) for b in a[1:] if isinstance(b, list))
+
+
+def norm_items(dump_path, arith_mod, int_mod, seed):
     states = parse_dump(dump_path)
     orbits = {}
     for s in states:
@@ -243,13 +257,15 @@ def norm_items(dump_path, arith_mod, int_mod):
         okey = digest([mode, ty, cls])
         es = sorted(es, key=lambda e: json.dumps(e))
         if mode == "arith":
-            if hmod(okey, arith_mod) != 0:
+            # orbits with subtraction (ring or truncated) only come from the hand-picked seeds: always replayed
+            must = any(has_op(e, ("-", "neg", "o")) for e in es)
+            if not must and hmod(okey + str(seed), arith_mod) != 0:
                 continue
             if ty == "nat":
                 items.append((mode, "nat", okey, es))
             else:
                 items.append((mode, "real", okey, es))
-                if hmod(okey + "i", int_mod) == 0:
+                if must or hmod(okey + "i" + str(seed), int_mod) == 0:
                     items.append((mode, "int", okey, es))
         else:
             items.append((mode, ty, okey, es))
@@ -323,8 +339,10 @@ def comb_events(tj, route, cs, emit, only=None):
             continue
         r, _ = run_conv(cv, t, False)
         xj = enc(t)
-        ev = {"kind": "comb", "cv": name, "route": route, "ty": "bool", "mode": "comb", "x": xj, "ax": ["none"],
-              "conds": [enc(c.prop) for c in conds], "key": "comb:%s:%s:%s" % (name, route, digest(xj))}
+        # a refusal by the conversion's own error carries no term (nothing is judged on it; the key identifies the input)
+        ev = {"kind": "comb", "cv": name, "route": route, "ty": "bool", "mode": "comb", "x": xj if r["pt"]["o"] != "conv" else ["none"],
+              "ax": ["none"], "conds": [enc(c.prop) for c in conds] if r["pt"]["o"] != "conv" else [],
+              "key": "comb:%s:%s:%s" % (name, route, digest(xj))}
         ev.update(r)
         emit(ev)
 
@@ -333,9 +351,9 @@ def has_abs(j):
     return j[0] == "abs" or (j[0] == "comb" and (has_abs(j[1]) or has_abs(j[2])))
 
 
-def comb_items(vec_path, comb_mod):
+def comb_items(vec_path, comb_mod, seed):
     vecs = [json.loads(ln) for ln in open(vec_path) if ln.strip()]
-    vecs = [v for v in vecs if hmod(digest(v["t"]), comb_mod) == 0]
+    vecs = [v for v in vecs if v.get("must") or hmod(digest(v["t"]) + str(seed), comb_mod) == 0]
     # binders named "x" (clashing with the free variable x) and, when there is a binder, fresh names
     items = [("comb", "comb", v["t"], route) for v in vecs for route in (("x", "u") if has_abs(v["t"]) else ("x",))]
     print("comb: %d terms, %d (term, binder naming) inputs" % (len(vecs), len(items)))
@@ -443,7 +461,7 @@ def cost(it):
 
 
 def run_all(dump_path, vec_path, out_path, jobs, arith_mod, int_mod, comb_mod, nrand, seed):
-    items = norm_items(dump_path, arith_mod, int_mod) + comb_items(vec_path, comb_mod) + rand_items(nrand, seed)
+    items = norm_items(dump_path, arith_mod, int_mod, seed) + comb_items(vec_path, comb_mod, seed) + rand_items(nrand, seed)
     # most expensive first, so that the round-robin split over the children is balanced
     items.sort(key=lambda it: -cost(it))
 
